@@ -339,9 +339,19 @@ func regionMergeable(B, J *ssa.BasicBlock) bool {
 	return true
 }
 
+// noMergeFuncs: interpreter loops whose branch decisions select the next
+// instruction; merging them would make the program counter symbolic.
+var noMergeFuncs = map[string]bool{
+	"(*" + RepoModule + "/runtime.LuaCont).RunInThread": true,
+	"(*" + RepoModule + "/runtime.Thread).RunContinuation": true,
+}
+
 // tryMerge attempts to if-convert the If at the end of fr.block.
 func (in *Interp) tryMerge(fr *Frame, x *ssa.If, c *Term) bool {
 	if in.NoMerge || in.spec >= 64 || in.concreteGen != nil {
+		return false
+	}
+	if noMergeFuncs[fr.fn.String()] {
 		return false
 	}
 	B := fr.block
